@@ -45,7 +45,17 @@ FIRST = {
     "C19-4": "the check CRASHED (exit 2: it called a private helper whose signature the change altered); implementation exceptions are now broken correspondence; plus: the processed entry is a symbolic link to the file",
     "C12-4": "missed by C12, C15 HUNG (28 min); per-case alarm and time-limited shrinking; alias sets referring to each other against the registration order",
     "C12-5": "missed; names the template language cannot spell offered as alias / ad-hoc names, every listed alias or ad-hoc tag must be usable in a template",
+    "C01-6": "missed; destinations longer than NAME_MAX that agree in their first 251 bytes",
+    "C02-7": "missed (the harness trusted the tool's own verdict on name validity); independent validity oracle for generated names, names that other platforms refuse",
+    "C02-8": "missed by C02 (caught by C07): same idea as C07-5",
+    "C03-5": "missed; corpus case of a chain through a name that is a file first and a directory afterwards",
+    "C09-7": "the trial ran into its 50-minute limit (every case using the alias waited 120 s): per-case limit 45 s and a worker gives up after three such cases",
+    "C14-7": "missed by C14 (caught by C15): an alias in a filter/sort expression pasted as source",
+    "C15-8": "missed by C15 (caught by C16, which runs with -v)",
+    "C17-7": "missed; deep trees whose relative paths exceed 255 bytes while every name is short",
 }
+# round 4: these were detected at the first trial only because the generators had been extended after reading the authors'
+# reports and before the trial: C07-8 C10-7 C11-5 C12-6 C13-6 C14-6 C15-7 C16-5 C16-6 C19-6 C20-7
 rows = ["| seed | change (as its author described it) | detected by | first attempt |", "|---|---|---|---|"]
 for d in sorted(glob.glob(str(VERIF / "seeded" / "*"))):
     m = json.load(open(d + "/meta.json"))
@@ -57,6 +67,6 @@ for d in sorted(glob.glob(str(VERIF / "seeded" / "*"))):
     rows.append(f"| {os.path.basename(d)} | {title} | {det} | {first} |")
 text = (VERIF / "DESIGN.md").read_text()
 new = re.sub(r"<!-- SEED-TABLE-BEGIN -->.*?<!-- SEED-TABLE-END -->",
-             "<!-- SEED-TABLE-BEGIN -->\n" + "\n".join(rows) + "\n<!-- SEED-TABLE-END -->", text, flags=re.S)
+             lambda m: "<!-- SEED-TABLE-BEGIN -->\n" + "\n".join(rows) + "\n<!-- SEED-TABLE-END -->", text, flags=re.S)
 (VERIF / "DESIGN.md").write_text(new)
 print(len(rows) - 2, "seeds")
